@@ -208,7 +208,10 @@ def doForms (f : List String) : String :=
           | .ok d => "\tf2d=" ++ evalDeep I d ++ "\tf2dvars=" ++ showStrs d.vars ++ "\tf2dtext=" ++ hex (d.unparse I t)) ++
         (match runHistory I t hist.toList (.inl f) with
           | .error e => "\th=" ++ showFail e
-          | .ok (.inl g) => "\th=" ++ evalSym g ++ "\thvars=" ++ showStrs g.vars ++ "\thtext=" ++ hex g.text
+          | .ok (.inl g) => "\th=" ++ evalSym g ++ "\thvars=" ++ showStrs g.vars ++ "\thtext=" ++ hex g.text ++
+              (match Flat.parse I t (lmOf lm) g.text with
+                | .error e => "\tsj=" ++ showFail e
+                | .ok g2 => "\tsj=" ++ evalSym g2 ++ "\tsjvars=" ++ showStrs g2.vars)
           | .ok (.inr d) => "\th=" ++ evalDeep I d ++ "\thvars=" ++ showStrs d.vars ++ "\thtext=" ++ hex (d.unparse I t))
     let deepPart := match dp with
       | .error e => "\td=" ++ showFail e
@@ -236,6 +239,15 @@ def doForms (f : List String) : String :=
         "\tspec=" ++ (match c.denote I t ρ with | some v => v.show | none => "NONE") ++
         "\tspec_nf=" ++ (match c.denote I t ρ with | some v => (v.assocNF flagged).show | none => "NONE") ++
         "\tsvars=" ++ showStrs vars ++
+        (match c.denote I t ρ with
+          | some v =>
+            let lo := v.opsVar
+            let hi := c.opsAll
+            "\tsbr_lo=" ++ showStrs (sortDedup (lo.1.map (reprOf t))) ++ "\tsbr_hi=" ++ showStrs (sortDedup (hi.1.map (reprOf t))) ++
+            "\tsur_lo=" ++ showStrs (sortDedup (lo.2.map (reprOf t))) ++ "\tsur_hi=" ++ showStrs (sortDedup (hi.2.map (reprOf t))) ++
+            "\tsor_lo=" ++ showStrs (sortDedup ((lo.1 ++ lo.2).map (reprOf t))) ++ "\tsor_hi=" ++ showStrs (sortDedup ((hi.1 ++ hi.2).map (reprOf t)))
+          | none => "") ++
+        "\tstext=" ++ hex text ++
         "\trender=" ++ (if rendered == text then "ok" else "DIFF:" ++ hex rendered) ++
         "\ttoks=" ++ (if toksOk then "ok" else "DIFF") ++
         "\tlexsafe=" ++ (if lexSafe t then "ok" else "no")
